@@ -224,6 +224,7 @@ class Sandbox:
     def func(self, key):
         """key: 'localcider/backend/sequence.py:Sequence.deltaForm'"""
         rel, q = key.split(':')
+        q = q.split('#')[0]         # 'f#variant' = a second contract for the same function
         dotted = rel[:-3].replace('/', '.')
         if dotted.endswith('.__init__'):
             dotted = dotted[:-9]
